@@ -199,6 +199,10 @@ def gen_case(rng, cid, focus=()):
     if 'series_single_ok' in focus and c['time_series'] and rng.random() < 0.4:
         nsteps = 1
     steps = gen_steps(rng, nsteps)
+    # entry point: read_directory (sorts the files by step) or FEMData.read_files handed the files
+    # in the (shuffled) order of c['files'] -- there nothing sorts: time_steps and every slice
+    # must come in the order given
+    c['entry'] = 'read_files' if c['time_series'] and rng.random() < (0.3 if not focus else 0.4) else 'read_directory'
     used_names = set()
     has_el = rng.random() < 0.75
     proto_n = gen_section(rng, nids, used_names, 'nodal')
@@ -230,7 +234,8 @@ def expected_single(c, f, types):
 def oracle(c, r):
     """differences between what the files say and what femio returned"""
     types = r['types']
-    files = sorted(c['files'], key=lambda f: f['step'])
+    files = sorted(c['files'], key=lambda f: f['step']) if c.get('entry', 'read_directory') == 'read_directory' \
+        else list(c['files'])
     diffs = []
     if not c['time_series']:
         exp = expected_single(c, files[-1], types)
@@ -349,8 +354,9 @@ def failing(out, tag):
     return [int(x) for x in re.findall(r'\d+', t)]
 
 
-def coq_check(ctx, cases, res, tag):
-    """R: python text = Coq render_res; D: model read_dir = femio; P: model's own round trip"""
+def coq_check(ctx, cases, res, tag, all_p=True):
+    """R: python text = Coq render_res; D: model read_dir = femio; P: model's own round trip
+    (P is what C02_res_roundtrip proves; with the proofs checked it is evaluated on every 4th case only)"""
     bad = {'R': [], 'D': [], 'P': []}
     chunk = 15
     jobs = []
@@ -372,12 +378,17 @@ def coq_check(ctx, cases, res, tag):
                 txt.append(f"Definition c{c['id']}_{j} : content str := {coq_content(f['content'])}.")
                 txt.append(f"Definition f{c['id']}_{j} : list str := {coq_lines(f['lines'])}.")
                 L['R'].append(f"({c['id']}, agree_render {lay} c{c['id']}_{j} f{c['id']}_{j})")
-                L['P'].append(f"({c['id']}, model_roundtrip_ok {lay} {n} {e} ty{c['id']} c{c['id']}_{j})")
+                if all_p or c['id'] % 4 == 0:
+                    L['P'].append(f"({c['id']}, model_roundtrip_ok {lay} {n} {e} ty{c['id']} c{c['id']}_{j})")
                 fl.append(f"({lib.coq_Z(f['step'])}, f{c['id']}_{j})")
             ts = 'true' if c['time_series'] else 'false'
             x = 'None' if 'read_error' in r else f'(Some {coq_dir_result(c, r)})'
-            L['D'].append(f"({c['id']}, agree_dir series_single_ok element_types {ts} {n} {e} "
-                          f"ty{c['id']} {lib.coq_list(fl)} {x})")
+            if c.get('entry', 'read_directory') == 'read_files':
+                L['D'].append(f"({c['id']}, agree_files series_single_ok element_types {n} {e} "
+                              f"ty{c['id']} {lib.coq_list(fl)} {x})")
+            else:
+                L['D'].append(f"({c['id']}, agree_dir series_single_ok element_types {ts} {n} {e} "
+                              f"ty{c['id']} {lib.coq_list(fl)} {x})")
         for nm in 'RDP':
             txt.append(f'Definition cases{nm} : list (nat * bool) := {lib.coq_list(L[nm])}.')
             txt.append(f'Goal True. idtac "@@ {nm}". Abort.')
@@ -496,7 +507,7 @@ def check_real(ctx):
 # ----------------------------------------------------------------------- main
 def case_for_replay(c):
     d = {k: c[k] for k in ('mesh', 'layout', 'time_series', 'files')}
-    for k in ('ts_arg', 'read_twice'):
+    for k in ('ts_arg', 'read_twice', 'entry'):
         if k in c:
             d[k] = c[k]
     if c.get('path_key'):
@@ -509,11 +520,12 @@ def case_for_replay(c):
 def describe(c):
     return {'types': [b['type'] for b in c['mesh']['elems']], 'layout': c['layout'],
             'time_series': c['time_series'], 'steps': [f['step'] for f in c['files']],
+            'entry': c.get('entry', 'read_directory'),
             'nodal_vars': c['files'][0]['content']['nodal']['vars'],
             'elemental_vars': (c['files'][0]['content']['elemental'] or {}).get('vars')}
 
 
-def check_cases(ctx, cases, tag, tie_ok, cfg):
+def check_cases(ctx, cases, tag, tie_ok, cfg, all_p=True):
     last_shared = {}
     for c in cases:
         if c.get('path_key'):
@@ -530,6 +542,11 @@ def check_cases(ctx, cases, tag, tie_ok, cfg):
                                                        + ((c['files'][0]['content']['elemental'] or {}).get('vars') or [])) >= 10
                                          else '<10'))
         ctx.count('ts_arg:' + c.get('ts_arg', 'bool'))
+        ctx.count('entry:' + c.get('entry', 'read_directory'))
+        if c.get('entry') == 'read_files' and len(c['files']) > 1:
+            st_ = [f['step'] for f in c['files']]
+            ctx.count('read_files_order:' + ('ascending' if st_ == sorted(st_) else
+                                             'descending' if st_ == sorted(st_, reverse=True) else 'other'))
         for f in c['files']:
             for sec in (f['content']['nodal'], f['content']['elemental']):
                 for _, vals in (sec['rows'] if sec else []):
@@ -562,7 +579,7 @@ def check_cases(ctx, cases, tag, tie_ok, cfg):
                 oracle_bad[c['id']] = d
     bad = {'R': [], 'D': [], 'P': []}
     if tie_ok:
-        bad = coq_check(ctx, cases, res, tag)
+        bad = coq_check(ctx, cases, res, tag, all_p)
         ctx.log(f'{tag}: correspondence evaluated in Coq')
     ctx.corr['cases'] = ctx.corr.get('cases', 0) + len(cases)
     ctx.corr['disagreements'] = ctx.corr.get('disagreements', 0) + len(set(bad['D']))
@@ -582,13 +599,16 @@ def check_cases(ctx, cases, tag, tie_ok, cfg):
         c, r = by_id[cid], res[cid]
         ctx.violation('correspondence', case_for_replay(c), 'model read_dir = femio read_directory',
                       {'impl_error': r.get('read_error'), 'tb': r.get('tb')},
+                      'correspondence C02 (Corr.agree_files)' if c.get('entry') == 'read_files' else
                       'correspondence C02 (Corr.agree_dir)', found_input=cid in oracle_bad,
                       signature={'kind': 'correspondence', 'time_series': c['time_series'],
+                                 'entry': c.get('entry', 'read_directory'),
                                  'n_files': min(len(c['files']), 2), 'raised': 'read_error' in r,
                                  'history': 'same-dir-rewrite' if c.get('_prev') else 'fresh-dir'})
     for cid, d in sorted(oracle_bad.items()):
         c, r = by_id[cid], res[cid]
         sig = {'site': 'FrontISTRData.read_files', 'time_series': c['time_series'],
+               'entry': c.get('entry', 'read_directory'),
                'n_files': len(c['files']) if len(c['files']) < 2 else 'several',
                'raised': (r.get('read_error') or '').split(':')[0] or None,
                'explained_by_model': bool(tie_ok and cid not in bad['D']),
@@ -597,7 +617,7 @@ def check_cases(ctx, cases, tag, tie_ok, cfg):
                       'every value read under the id / variable / step it was written for',
                       {'differences': d[:6], 'tb': r.get('tb')}, 'C02 oracle on implementation',
                       found_input=True, signature=sig,
-                      what=f"read_directory('fistr', time_series={c['time_series']}) with "
+                      what=f"{c.get('entry', 'read_directory')}('fistr', time_series={c['time_series']}) with "
                            f"{len(c['files'])} result file(s): {d[0]}")
     ctx.notes['search_evaluations'] = ctx.notes.get('search_evaluations', 0) + len(cases)
     ctx.notes['impl_property_failures'] = ctx.notes.get('impl_property_failures', 0) + len(oracle_bad)
@@ -669,9 +689,15 @@ def main(ctx):
         if not model_ok:
             ctx.log('model does not build:', log[-500:])
     ctx.notes['series_single_ok'] = cfg['series_single_ok'] if cfg else None
-    # S cross-check on solver outputs
-    if model_ok:
-        n_real, bad_real, skipped = check_real(ctx)
+    # S cross-check on solver outputs (one long coqc: runs beside the generated directories)
+    from concurrent.futures import ThreadPoolExecutor
+    pool = ThreadPoolExecutor(max_workers=1)
+    real_job = pool.submit(check_real, ctx) if model_ok else None
+
+    def collect_real():
+        if real_job is None:
+            return
+        n_real, bad_real, skipped = real_job.result()
         ctx.log(f'solver outputs cross-checked: {n_real}')
         ctx.notes['solver_outputs_checked'] = n_real
         ctx.notes['solver_outputs_not_in_S_layout'] = skipped
@@ -703,7 +729,9 @@ def main(ctx):
     ctx.notes['translator_degraded'] = degraded
     step = 300
     for k in range(0, len(cases), step):
-        check_cases(ctx, cases[k:k + step], f'g{k // step}', model_ok, cfg)
+        check_cases(ctx, cases[k:k + step], f'g{k // step}', model_ok, cfg, all_p=not proof_ok)
+    collect_real()
+    pool.shutdown()
     if not tie_ok:
         ctx.violation('tie-broken', {'translator_error': ctx.notes.get('translator_error')},
                       'translator accepts fistr.read_files / _split_series', 'fail-closed',
